@@ -118,7 +118,11 @@ class OMapMixin:
         pos = specfn.ufn("pos_" + _san(ks.ty.name), ks.ty.sort(), ks.ty.elem.sort(), z3.IntSort())
         px = pos(ks.t, x)
         mem = specfn.list_elems(ks).contains(SV(x, ks.ty.elem)).t
-        return z3.ForAll([x], z3.Implies(mem, z3.And(px >= 0, px < ks.length().t, ks[SV(px, TInt)].t == x)), patterns=[mem])
+        body = z3.Implies(mem, z3.And(px >= 0, px < ks.length().t, ks[SV(px, TInt)].t == x))
+        try:
+            return z3.ForAll([x], body, patterns=[mem])
+        except z3.Z3Exception:
+            return z3.ForAll([x], body)  # keys of a merged (if-then-else) map: no explicit trigger possible
 
     # ---------------- element access ----------------
     def omap_get(self, m, k, node):
